@@ -1,11 +1,509 @@
 package main
 
-func runEngine2(o opts) int {
-	fatal2("engine 2 is not built yet")
-	return 2
+import (
+	"bytes"
+	"encoding/json"
+	"fmt"
+	"os"
+	"os/exec"
+	"path/filepath"
+	"regexp"
+	"sort"
+	"strings"
+	"sync"
+	"time"
+
+	"verif/prep"
+	"verifsim/bsim"
+)
+
+type e2spec struct {
+	configs int
+	cases   int
+	maxS    float64
 }
 
+var engine2Tiers = map[string]map[string]e2spec{
+	"C05": {"quick": {24, 4800, 150}, "thorough": {96, 200000, 1500}},
+	"C15": {"quick": {24, 4800, 150}, "thorough": {96, 200000, 1500}},
+	"C20": {"quick": {20, 6400, 200}, "thorough": {64, 240000, 1800}},
+}
+
+// e2Violation mirrors the fields of rsim.Violation the driver needs.
+type e2Violation struct {
+	Property string          `json:"property"`
+	Sig      string          `json:"sig"`
+	Detail   string          `json:"detail"`
+	Config   string          `json:"config"`
+	Choices  []int           `json:"choices"`
+	raw      json.RawMessage
+}
+
+type e2Stats struct {
+	Runs      int            `json:"runs"`
+	Ops       int            `json:"ops"`
+	Steps     int            `json:"steps"`
+	Contended int            `json:"contended"`
+	Blocks    int            `json:"blocks"`
+	Policies  map[string]int `json:"policies"`
+	Outcomes  map[string]int `json:"outcomes"`
+	OpKinds   map[string]int `json:"op_kinds"`
+	Probes    map[string]int `json:"probes"`
+	Scopes    map[string]int `json:"scopes"`
+	Faults    map[string]int `json:"faults"`
+	Samples   []any          `json:"samples"`
+	PerConfig map[string]int `json:"per_config"`
+}
+
+type e2Batch struct {
+	Done       int               `json:"done"`
+	Stats      e2Stats           `json:"stats"`
+	Distinct   []string          `json:"distinct"`
+	Interleave []string          `json:"interleave"`
+	Violations []json.RawMessage `json:"violations"`
+	Aborted    string            `json:"aborted"`
+	EventLog   []string          `json:"event_log"`
+}
+
+func addMap(d, s map[string]int) {
+	for k, v := range s {
+		d[k] += v
+	}
+}
+
+type e2Merged struct {
+	stats      e2Stats
+	distinct   map[string]bool
+	interleave map[string]bool
+	violations []*e2Violation
+	aborted    int
+	eventLogs  []string
+}
+
+func runProbeWorkers(s *prep.Scratch, probe string, o opts, cases int, maxS float64, race bool, extra ...string) *e2Merged {
+	m := &e2Merged{distinct: map[string]bool{}, interleave: map[string]bool{}}
+	m.stats = e2Stats{Policies: map[string]int{}, Outcomes: map[string]int{}, OpKinds: map[string]int{}, Probes: map[string]int{}, Scopes: map[string]int{}, Faults: map[string]int{}, PerConfig: map[string]int{}}
+	w := o.workers
+	if w > cases {
+		w = cases
+	}
+	if w < 1 {
+		w = 1
+	}
+	outDir := filepath.Join(s.Dir, "out2")
+	_ = os.MkdirAll(outDir, 0755)
+	var mu sync.Mutex
+	var wg sync.WaitGroup
+	chunk := (cases + w - 1) / w
+	for k := 0; k < w; k++ {
+		from, to := k*chunk, (k+1)*chunk
+		if to > cases {
+			to = cases
+		}
+		if from >= to {
+			continue
+		}
+		wg.Add(1)
+		go func(k, from, to int) {
+			defer wg.Done()
+			for attempt := 0; from < to && attempt < 50; attempt++ {
+				out := filepath.Join(outDir, fmt.Sprintf("w%d-%d.json", k, attempt))
+				args := []string{"run", "-prop", o.prop, "-seed", fmt.Sprint(o.seed), "-from", fmt.Sprint(from), "-to", fmt.Sprint(to), "-out", out, "-max-s", fmt.Sprint(maxS)}
+				args = append(args, extra...)
+				cmd := exec.Command(probe, args...)
+				cmd.Dir = s.Dir
+				racelog := filepath.Join(outDir, fmt.Sprintf("race-w%d-%d", k, attempt))
+				cmd.Env = append(os.Environ(), "VERIFSIM_RACELOG="+racelog, "GORACE=log_path="+racelog+" halt_on_error=0 exitcode=0 history_size=2")
+				var eb bytes.Buffer
+				cmd.Stdout, cmd.Stderr = &eb, &eb
+				if err := cmd.Start(); err != nil {
+					fatal2("starting probe: %v", err)
+				}
+				done := make(chan error, 1)
+				go func() { done <- cmd.Wait() }()
+				select {
+				case <-done:
+				case <-time.After(time.Duration(maxS*2+300) * time.Second):
+					_ = cmd.Process.Kill()
+					fatal2("probe worker %d exceeded its watchdog; output:\n%s", k, eb.String())
+				}
+				b, rerr := os.ReadFile(out)
+				if rerr != nil {
+					fatal2("probe worker %d wrote no result (%v); output:\n%s", k, rerr, tailStr(eb.String(), 3000))
+				}
+				var bo e2Batch
+				if jerr := json.Unmarshal(b, &bo); jerr != nil {
+					fatal2("probe worker %d result unreadable: %v", k, jerr)
+				}
+				mu.Lock()
+				st := &m.stats
+				st.Runs += bo.Stats.Runs
+				st.Ops += bo.Stats.Ops
+				st.Steps += bo.Stats.Steps
+				st.Contended += bo.Stats.Contended
+				st.Blocks += bo.Stats.Blocks
+				addMap(st.Policies, bo.Stats.Policies)
+				addMap(st.Outcomes, bo.Stats.Outcomes)
+				addMap(st.OpKinds, bo.Stats.OpKinds)
+				addMap(st.Probes, bo.Stats.Probes)
+				addMap(st.Scopes, bo.Stats.Scopes)
+				addMap(st.Faults, bo.Stats.Faults)
+				addMap(st.PerConfig, bo.Stats.PerConfig)
+				for _, x := range bo.Stats.Samples {
+					if len(st.Samples) < 4 {
+						st.Samples = append(st.Samples, x)
+					}
+				}
+				for _, d := range bo.Distinct {
+					m.distinct[d] = true
+				}
+				for _, d := range bo.Interleave {
+					m.interleave[d] = true
+				}
+				for _, raw := range bo.Violations {
+					v := &e2Violation{raw: raw}
+					_ = json.Unmarshal(raw, v)
+					m.violations = append(m.violations, v)
+				}
+				m.eventLogs = append(m.eventLogs, bo.EventLog...)
+				if bo.Aborted != "" {
+					m.aborted++
+				}
+				mu.Unlock()
+				if bo.Aborted == "" {
+					return
+				}
+				from = bo.Done
+			}
+		}(k, from, to)
+	}
+	wg.Wait()
+	sort.Strings(m.eventLogs)
+	return m
+}
+
+func tailStr(s string, n int) string {
+	if len(s) > n {
+		return s[len(s)-n:]
+	}
+	return s
+}
+
+type genOut struct {
+	Items []struct {
+		Name    string `json:"name"`
+		Exit    int    `json:"exit"`
+		Files   int    `json:"files"`
+		Illegal bool   `json:"illegal"`
+		CType   string `json:"ctype"`
+		CCtor   string `json:"cctor"`
+	} `json:"items"`
+	Violations []*bsim.Violation `json:"violations"`
+	Builds     int               `json:"builds"`
+}
+
+func runEngine2(o opts) int {
+	t0 := time.Now()
+	spec := engine2Tiers[o.prop][o.tier]
+	if o.cases > 0 {
+		spec.cases = o.cases
+	}
+	if o.maxS > 0 {
+		spec.maxS = o.maxS
+	}
+	race := o.prop == "C20"
+	s, err := prep.Buildsim(o.repo)
+	defer s.Cleanup()
+	if err != nil {
+		fatal2("%v", err)
+	}
+	// 1. draw the batch's configurations and push them through the (instrumented) build command
+	gendir := filepath.Join(s.Dir, "gen")
+	genJSON := filepath.Join(s.Dir, "genout.json")
+	cmd := exec.Command(s.Worker, "genbatch", "-prop", o.prop, "-seed", fmt.Sprint(o.seed), "-to", fmt.Sprint(spec.configs), "-file", gendir, "-out", genJSON)
+	cmd.Dir = s.Dir
+	if out, err := cmd.CombinedOutput(); err != nil {
+		fatal2("generating the batch's containers failed: %v\n%s", err, tailStr(string(out), 3000))
+	}
+	var g genOut
+	b, _ := os.ReadFile(genJSON)
+	if err := json.Unmarshal(b, &g); err != nil {
+		fatal2("genout: %v", err)
+	}
+	var items []prep.ProbeItem
+	accepted, rejected := 0, 0
+	for _, it := range g.Items {
+		if it.Exit == 0 {
+			accepted++
+			items = append(items, prep.ProbeItem{Name: it.Name, CType: it.CType, CCtor: it.CCtor})
+		} else {
+			rejected++
+		}
+	}
+	// 2. build the probe
+	probe, broken, irep, err := prep.Probe(s, gendir, items, race)
+	if err != nil {
+		fatal2("%v", err)
+	}
+	fmt.Printf("vcheck %s tier=%s seed=%d: %d configurations drawn, %d accepted, %d rejected, %d do not compile; probe built (race=%v, %d yields, %d sync rewrites) in %.0fs\n",
+		o.prop, o.tier, o.seed, len(g.Items), accepted, rejected, len(broken), race, irep.Yields, s.HelpersRep.SyncRewrites+irep.SyncRewrites, since(t0))
+	m1 := &merged{stats: bsim.NewStats(), distinct: map[string]bool{}}
+	m1.violations = append(m1.violations, g.Violations...)
+	var bnames []string
+	for n := range broken {
+		bnames = append(bnames, n)
+	}
+	sort.Strings(bnames)
+	for _, n := range bnames {
+		msg := broken[n]
+		m1.violations = append(m1.violations, &bsim.Violation{Property: o.prop, Sig: "generated-code-does-not-compile:" + compileErrClass(msg), Mode: "compile",
+			Detail: "the configuration " + n + " was accepted by `build` but its generated container does not compile against the pinned runtime:\n" + tailStr(msg, 1500) + "\n" + cfgOf(gendir, n)})
+	}
+	// 3. run the histories
+	var m2 *e2Merged
+	if accepted-len(broken) > 0 {
+		m2 = runProbeWorkers(s, probe, o, spec.cases, spec.maxS, race)
+	} else {
+		m2 = &e2Merged{distinct: map[string]bool{}, interleave: map[string]bool{}}
+	}
+	return report2(o, s, probe, g, m1, m2, len(broken), t0)
+}
+
+func cfgOf(gendir, name string) string {
+	b, err := os.ReadFile(filepath.Join(gendir, name, "cfg.json"))
+	if err != nil {
+		return ""
+	}
+	if len(b) > 1500 {
+		b = b[:1500]
+	}
+	return "configuration model: " + string(b)
+}
+
+var reUndef = regexp.MustCompile(`([A-Za-z0-9_.]+) undefined`)
+
+// compileErrClass: the first undefined symbol (scope setters folded into one class), else the first message.
+func compileErrClass(msg string) string {
+	if m := reUndef.FindStringSubmatch(msg); m != nil {
+		sym := m[1]
+		if strings.HasPrefix(sym, "s.Scope") {
+			sym = "s.Scope*"
+		}
+		return "undefined:" + sym
+	}
+	ls := strings.Split(strings.TrimSpace(msg), "\n")
+	l := ls[0]
+	if i := strings.LastIndex(l, ": "); i >= 0 {
+		l = l[i+2:]
+	}
+	if len(l) > 50 {
+		l = l[:50]
+	}
+	return strings.ReplaceAll(l, " ", "-")
+}
+
+func report2(o opts, s *prep.Scratch, probe string, g genOut, m1 *merged, m2 *e2Merged, nbroken int, t0 time.Time) int {
+	findings := loadFindings()
+	repDir := filepath.Join(verifDir, "replays")
+	_ = os.MkdirAll(repDir, 0755)
+	type item struct {
+		sig, detail string
+		raw         []byte
+		kind        string // world | compile | probe
+		nchoices    int
+	}
+	by := map[string]item{}
+	for _, v := range m1.violations {
+		b, _ := json.MarshalIndent(v, "", " ")
+		k := "world"
+		if v.Mode == "compile" {
+			k = "compile"
+		}
+		if old, ok := by[v.Sig]; !ok || len(v.Choices) < old.nchoices {
+			by[v.Sig] = item{v.Sig, v.Detail, b, k, len(v.Choices)}
+		}
+	}
+	for _, v := range m2.violations {
+		if old, ok := by[v.Sig]; !ok || len(v.Choices) < old.nchoices {
+			by[v.Sig] = item{v.Sig, v.Detail, v.raw, "probe", len(v.Choices)}
+		}
+	}
+	var sigs []string
+	for k := range by {
+		sigs = append(sigs, k)
+	}
+	sort.Strings(sigs)
+	newViol, known := 0, 0
+	for n, sig := range sigs {
+		it := by[sig]
+		path := filepath.Join(repDir, fmt.Sprintf("%s-%d-%d.json", o.prop, o.seed, n))
+		if err := os.WriteFile(path, it.raw, 0644); err != nil {
+			fatal2("writing replay: %v", err)
+		}
+		switch it.kind {
+		case "world":
+			outp, code := runReplay(s, path)
+			if code != 1 || !strings.Contains(outp, "REPRODUCED") || strings.Contains(outp, "NOT-REPRODUCED") {
+				fatal2("violation %s (%s) did not reproduce from %s in a fresh process:\n%s", o.prop, sig, path, outp)
+			}
+		case "probe":
+			outp, code := runProbeReplay(s, probe, path)
+			if code != 1 || !strings.Contains(outp, "REPRODUCED") || strings.Contains(outp, "NOT-REPRODUCED") {
+				fatal2("violation %s (%s) did not reproduce from %s in a fresh process:\n%s", o.prop, sig, path, tailStr(outp, 3000))
+			}
+		}
+		if f := matchFinding(findings, o.prop, sig); f != nil {
+			known++
+			fmt.Printf("KNOWN-FINDING: property=%s %s [sig=%s replay=%s]\n", o.prop, f.What, sig, path)
+			continue
+		}
+		newViol++
+		fmt.Printf("VIOLATION property=%s replay=%s\n  signature: %s\n", o.prop, path, sig)
+		for i, l := range strings.Split(strings.TrimSpace(it.detail), "\n") {
+			if i > 40 {
+				fmt.Println("  ...")
+				break
+			}
+			if len(l) > 300 {
+				l = l[:300] + "..."
+			}
+			fmt.Printf("  %s\n", l)
+		}
+	}
+	wall := since(t0)
+	st := m2.stats
+	evals := st.Runs + g.Builds
+	cov := map[string]any{
+		"evaluations":              evals,
+		"distinct_nontrivial":      len(m2.distinct),
+		"rule":                     ruleText2[o.prop],
+		"samples":                  st.Samples,
+		"simulated_runs":           st.Runs,
+		"runs_per_hour":            int(float64(st.Runs) / wall * 3600),
+		"seeds_per_hour":           int(float64(st.Runs) / wall * 3600),
+		"simulated_time":           fmt.Sprintf("%d scheduler steps over %d runs (the system has no clock or timers; simulated time is counted in scheduling steps)", st.Steps, st.Runs),
+		"client_operations":        st.Ops,
+		"operation_kinds":          st.OpKinds,
+		"scheduler_policies":       st.Policies,
+		"contended_decisions":      st.Contended,
+		"lock_blocks":              st.Blocks,
+		"distinct_interleavings":   len(m2.interleave),
+		"interleaving_measure":     "distinct (configuration, sequence of tasks chosen at decisions with more than one runnable task)",
+		"run_outcomes":             st.Outcomes,
+		"probes":                   st.Probes,
+		"effective_scopes_seen":    st.Scopes,
+		"fault_kinds_fired":        st.Faults,
+		"runs_per_configuration":   st.PerConfig,
+		"configurations_drawn":     len(g.Items),
+		"configurations_built":     g.Builds,
+		"configurations_not_compiling": nbroken,
+		"known_findings_hit":       known,
+		"exhaustive":               false,
+		"components": map[string]any{
+			"real_code": []string{"the generated containers (output of the working tree's build command; rewritten only: a scheduler yield before every statement, sync -> simsync, os env calls)",
+				"the whole build pipeline of /repo that produced them (engine 1, fault-free, random map schedule)", "gontainer-helpers runtime: container, caller, copier, exporter, setter, grouperror, graph (rewritten only at map ranges and sync.{Mutex,RWMutex,Once})"},
+			"simulated": []string{"goroutine scheduler: exactly one client task runs, the next is drawn from the seed at every yield point (5 policies); hand-off by raw futex in norace code so the race detector sees only the program's own synchronisation",
+				"blocking of sync.Mutex/RWMutex/Once (real primitives underneath via Try*, so happens-before edges are the real ones; writer preference modelled)", "user application code: fixture package fx (constructors, methods, decorators, parameter functions with event log, yields and injectable failures)", "process environment for env()/envInt()"},
+			"stub": []string{"fx stands in for user code"},
+		},
+	}
+	ev := &Evidence{PropertyID: o.prop, Tier: o.tier, Seed: int64(o.seed), Level: "exploration", Coverage: cov, Assumptions: assumptions2[o.prop], WallS: wall, Violations: newViol}
+	if evals == 0 {
+		fatal2("no case was evaluated")
+	}
+	if len(m2.distinct) < 2 && newViol == 0 && known == 0 {
+		fatal2("fewer than 2 distinct runs were executed (%d): the batch is not evidence", len(m2.distinct))
+	}
+	writeEvidence(ev)
+	fmt.Printf("vcheck %s: %d configurations, %d simulated runs (%d ops, %d steps, %d contended decisions, %d distinct interleavings), %d new violation(s), %d known finding(s), %.0fs\n",
+		o.prop, len(g.Items), st.Runs, st.Ops, st.Steps, st.Contended, len(m2.interleave), newViol, known, wall)
+	if newViol > 0 {
+		return 1
+	}
+	return 0
+}
+
+func runProbeReplay(s *prep.Scratch, probe, path string) (string, int) {
+	cmd := exec.Command(probe, "replay", "-file", path)
+	cmd.Dir = s.Dir
+	racelog := filepath.Join(s.Dir, "race-replay")
+	cmd.Env = append(os.Environ(), "VERIFSIM_RACELOG="+racelog, "GORACE=log_path="+racelog+" halt_on_error=0 exitcode=0 history_size=2")
+	var b bytes.Buffer
+	cmd.Stdout, cmd.Stderr = &b, &b
+	err := cmd.Run()
+	code := 0
+	if ee, ok := err.(*exec.ExitError); ok {
+		code = ee.ExitCode()
+	} else if err != nil {
+		code = 2
+	}
+	return b.String(), code
+}
+
+// replayEngine2 rebuilds a one-configuration probe from the replay file and re-executes the plan.
 func replayEngine2(o opts, path string) int {
-	fatal2("engine 2 is not built yet")
-	return 2
+	b, err := os.ReadFile(path)
+	if err != nil {
+		fatal2("%v", err)
+	}
+	var v struct {
+		Property string `json:"property"`
+		Cfg      struct {
+			Meta struct {
+				Pkg   *string `json:"pkg"`
+				CType *string `json:"ctype"`
+				CCtor *string `json:"cctor"`
+			} `json:"meta"`
+		} `json:"cfg"`
+	}
+	if err := json.Unmarshal(b, &v); err != nil {
+		fatal2("%v", err)
+	}
+	s, err := prep.Buildsim(o.repo)
+	defer s.Cleanup()
+	if err != nil {
+		fatal2("%v", err)
+	}
+	gendir := filepath.Join(s.Dir, "gen")
+	cmd := exec.Command(s.Worker, "genone", "-file", path, "-out", gendir)
+	cmd.Dir = s.Dir
+	if out, err := cmd.CombinedOutput(); err != nil {
+		fatal2("regenerating the container failed: %v\n%s", err, out)
+	}
+	d := func(p *string, def string) string {
+		if p != nil {
+			return *p
+		}
+		return def
+	}
+	items := []prep.ProbeItem{{Name: d(v.Cfg.Meta.Pkg, "c000"), CType: d(v.Cfg.Meta.CType, "Gontainer"), CCtor: d(v.Cfg.Meta.CCtor, "NewGontainer")}}
+	probe, broken, _, err := prep.Probe(s, gendir, items, v.Property == "C20")
+	if err != nil {
+		fatal2("%v", err)
+	}
+	if len(broken) > 0 {
+		fmt.Printf("REPRODUCED property=%s sig=generated-code-does-not-compile\n%v\nVIOLATION property=%s replay=%s\n", v.Property, broken, v.Property, path)
+		return 1
+	}
+	out, code := runProbeReplay(s, probe, path)
+	fmt.Print(out)
+	if code == 1 {
+		fmt.Printf("VIOLATION property=%s replay=%s\n", v.Property, path)
+	}
+	return code
+}
+
+var ruleText2 = map[string]string{
+	"C05": "one case = (one of the batch's accepted runnable configurations: 2-6 pointer-typed services over the fixture universe with every scope keyword incl. unset, dependency edges through arguments / fields / calls / !tagged / decorators, split over 1-3 files with drawn key order) x (a drawn history of <=10 operations from {Get, GetInContext(c1..c3), GetTaggedBy[InContext], typed getters incl. Must*/InContext} run by 1 task (half of the cases) or 2-4 interleaved tasks under the seeded scheduler); judged by the scope identity model. Before that every drawn configuration's accept/reject verdict is compared with the model's legality verdict. distinct = distinct (configuration, plan, decision trace)",
+	"C15": "one case = (an accepted configuration with any subset of parameters/services marked todo, env/envInt/function parameters) x (a drawn sequential history of <=12 operations from {New, GetParam, Get, OverrideParam(value|param|provider), OverrideService, SetEnv, UnsetEnv, ArmFailure}); every operation's outcome is compared with the todo/override/laziness reference model. distinct = distinct (configuration, history)",
+	"C20": "one case = (an accepted legal configuration) x (2-8 client tasks with <=24 reader operations in total incl. GetParam, biased to meet on the same services) x (a seeded schedule: policy, PRNG); checked: race detector silent under that schedule, each shared service constructed and each function parameter evaluated at most once, identity model incl. context isolation, every operation returns. distinct = distinct (configuration, plan, decision trace)",
+}
+
+var assumptions2 = map[string][]string{
+	"C05": {"the fixture universe fx stands in for user code; only pointer-typed services carry an observable identity", "constructor failures are not armed in this check: every operation must succeed",
+		"interleaved histories use reader operations only", "goroutines created by context.AfterFunc run only after the controlled phase (contexts are cancelled at the end)"},
+	"C15": {"sequential histories only: the property quantifies over histories, not schedules", "parameter values are restricted to int/string so that the reference model is exact",
+		"already constructed dependants are not judged after an override (the property speaks about dependants not yet constructed)"},
+	"C20": {"reader operations only (Get, GetInContext, GetParam, GetTaggedBy[InContext], typed getters), as the property lists", "a race report is attributed to the run during which the race detector's log grew; the detector reports each distinct race once per process",
+		"evaluations of env()/envInt() parameters cannot be counted; only function parameters are", "step cap 200000 decisions per run"},
 }
